@@ -407,3 +407,134 @@ def check_caches(ctx, rule: str, module_names):
     for fi, deco, why in hits:
         ctx.violation(rule, f"{fi.key}:cache:{deco}", f"{fi.qualname} is wrapped in functools.{deco}: {why}", f"{fi.module.relpath}:{fi.node.lineno}")
     ctx.ok(rule, "artefacts:caches", f"{seen} functools cache decorator(s) examined in {', '.join(module_names)}: {len(hits)} with an untrustworthy key or result", "")
+    check_stale_loop_variables(ctx, rule, module_names)
+
+
+# ---------------------------------------------------------------------------------------------------------------
+# stale loop variable: the target of a finished `for` loop read again inside a *later* loop or comprehension
+# ---------------------------------------------------------------------------------------------------------------
+def _local_nodes(fn: ast.AST):
+    for c in ast.iter_child_nodes(fn):
+        if isinstance(c, (ast.FunctionDef, ast.AsyncFunctionDef, ast.Lambda, ast.ClassDef)):
+            continue
+        yield c
+        yield from _local_nodes(c)
+
+
+def _tnames(t: ast.AST) -> set:
+    return {n.id for n in ast.walk(t) if isinstance(n, ast.Name)}
+
+
+def stale_loop_variable_uses(fn: ast.AST) -> List[Tuple[str, ast.AST, ast.AST]]:
+    """[(name, use, loop)]: `name` is bound *only* as the target of one `for` statement (no parameter, assignment, other loop or
+    comprehension binds it), that loop has no `break` (so this is not the search idiom), and `name` is read after the loop has
+    ended from inside another loop or comprehension -- where it is a constant (the last element of the finished iteration) standing
+    in a place that is evaluated once per element of something else. Silent on everything it does not recognise."""
+    nodes = list(_local_nodes(fn))
+    other = {a.arg for a in ast.walk(fn.args) if isinstance(a, ast.arg)} if hasattr(fn, "args") else set()
+    fors = [n for n in nodes if isinstance(n, (ast.For, ast.AsyncFor))]
+    for n in nodes:
+        if isinstance(n, ast.Assign):
+            for t in n.targets:
+                if not isinstance(t, (ast.Subscript, ast.Attribute)):
+                    other |= _tnames(t)
+        elif isinstance(n, (ast.AugAssign, ast.AnnAssign)) and isinstance(n.target, ast.Name):
+            other.add(n.target.id)
+        elif isinstance(n, ast.NamedExpr):
+            other.add(n.target.id)
+        elif isinstance(n, (ast.With, ast.AsyncWith)):
+            for i in n.items:
+                if i.optional_vars is not None:
+                    other |= _tnames(i.optional_vars)
+        elif isinstance(n, ast.ExceptHandler) and n.name:
+            other.add(n.name)
+        elif isinstance(n, (ast.Import, ast.ImportFrom)):
+            other |= {(a.asname or a.name).split(".")[0] for a in n.names}
+    comp_bound: dict = {}
+    in_iteration: set = set()
+    for n in nodes:
+        if isinstance(n, (ast.ListComp, ast.SetComp, ast.GeneratorExp, ast.DictComp)):
+            vs = set()
+            for g in n.generators:
+                vs |= _tnames(g.target)
+            for m in ast.walk(n):
+                comp_bound.setdefault(id(m), set()).update(vs)
+                in_iteration.add(id(m))
+        elif isinstance(n, (ast.For, ast.AsyncFor, ast.While)):
+            for s in n.body:
+                for m in ast.walk(s):
+                    in_iteration.add(id(m))
+    out = []
+    for L in fors:
+        if any(isinstance(b, ast.Break) for b in ast.walk(L)):
+            continue
+        inside = {id(m) for m in ast.walk(L)}
+        tn = _tnames(L.target)
+        elsewhere = set()
+        for L2 in fors:
+            if L2 is not L:
+                elsewhere |= _tnames(L2.target)
+        for n in nodes:
+            if not (isinstance(n, ast.Name) and isinstance(n.ctx, ast.Load) and n.id in tn) or id(n) in inside:
+                continue
+            if n.id in other or n.id in elsewhere or n.id in comp_bound.get(id(n), set()):
+                continue
+            if (n.lineno, n.col_offset) < (L.end_lineno or L.lineno, 0):
+                continue
+            if id(n) not in in_iteration:
+                continue
+            out.append((n.id, n, L))
+    return out
+
+
+_STALE_POSITIVE = """
+def f(weights, samples):
+    for state in weights:
+        total = weights[state]
+    out = []
+    for sample in samples:
+        out += [tuple(int(v) for v in state)] * samples[sample]
+    return out
+def g(xs, ys):
+    for x in xs:
+        if x:
+            break
+    return [x + y for y in ys]
+def h(xs, ys):
+    for x in xs:
+        pass
+    for x in ys:
+        pass
+    return [x for _ in ys]
+"""
+
+
+def self_check_stale_loop_variable() -> bool:
+    t = ast.parse(_STALE_POSITIVE)
+    f, g, h = t.body
+    return [x[0] for x in stale_loop_variable_uses(f)] == ["state"] and not stale_loop_variable_uses(g) and not stale_loop_variable_uses(h)
+
+
+def check_stale_loop_variables(ctx, rule: str, module_names):
+    """One obligation per module list: no anchored function reads the variable of a finished loop inside a later iteration."""
+    if not self_check_stale_loop_variable():
+        ctx.undecided(rule, "lint:stale-loop-variable:self-check", "the embedded positive example is no longer recognised", "")
+        return
+    seen = 0
+    for mn in module_names:
+        if mn not in ctx.repo.modules:
+            continue
+        mod = ctx.repo.module(mn)
+        for fi in list(mod.functions.values()):
+            seen += 1
+            for name, use, loop in stale_loop_variable_uses(fi.node):
+                ctx.violation(rule, f"{fi.key}:stale-loop-variable:{name}", f"`{name}` is the variable of the loop `for {short(loop.target, 30)} in {short(loop.iter, 40)}` that has already finished, yet it is read again inside a later loop/comprehension of {fi.qualname} (`{short(common_stmt(fi.node, use), 90)}`): there it is the constant last element of the finished iteration, evaluated once per element of something else -- the other iteration's own variable was meant", f"{fi.module.relpath}:{use.lineno}")
+    ctx.ok(rule, "lint:stale-loop-variable", f"{seen} function(s) in {', '.join(module_names)} examined: no finished loop's variable is read inside a later iteration", "")
+
+
+def common_stmt(fn: ast.AST, node: ast.AST) -> ast.AST:
+    best = node
+    for s in _local_nodes(fn):
+        if isinstance(s, ast.stmt) and not isinstance(s, (ast.For, ast.While, ast.If, ast.With, ast.Try)) and any(m is node for m in ast.walk(s)):
+            best = s
+    return best
